@@ -40,11 +40,11 @@ def plan(mode, quick, seed):
                 3: dict(IN_NVAR=1, IN_STRIDE1=1, IN_STRIDE2=4, IN_STRIDE3=20, IN_STRIDE4=110)}, off
     if mode == "C03":
         return {1: dict(IN_NVAR=24, IN_STRIDE=1),
-                2: dict(IN_NVAR=1, IN_STRIDE1=1, IN_STRIDE2=1, IN_STRIDE3=4, IN_STRIDE4=12),
-                3: dict(IN_NVAR=1, IN_STRIDE1=1, IN_STRIDE2=1, IN_STRIDE3=5, IN_STRIDE4=18)}, off
+                2: dict(IN_NVAR=1, IN_STRIDE1=1, IN_STRIDE2=1, IN_STRIDE3=3, IN_STRIDE4=9),
+                3: dict(IN_NVAR=1, IN_STRIDE1=1, IN_STRIDE2=1, IN_STRIDE3=4, IN_STRIDE4=13)}, off
     return {1: dict(IN_NVAR=32, IN_STRIDE=1),
-            2: dict(IN_NVAR=1, IN_STRIDE1=1, IN_STRIDE2=1, IN_STRIDE3=5, IN_STRIDE4=16),
-            3: dict(IN_NVAR=1, IN_STRIDE1=1, IN_STRIDE2=1, IN_STRIDE3=6, IN_STRIDE4=24)}, off
+            2: dict(IN_NVAR=1, IN_STRIDE1=1, IN_STRIDE2=1, IN_STRIDE3=4, IN_STRIDE4=12),
+            3: dict(IN_NVAR=1, IN_STRIDE1=1, IN_STRIDE2=1, IN_STRIDE3=5, IN_STRIDE4=18)}, off
 
 
 def gen_cases(ctx, mode, design=1):
